@@ -2624,3 +2624,279 @@ func ruleErrorChainKept(c *eng.Ctx) {
 		c.Undec(R, "tabula#errorf", token.NoPos, "no fmt.Errorf with an error argument found")
 	}
 }
+
+// ---------------------------------------------------------------------------------------------------------------
+// R15.12 "after the first row" means the first row of the loop.
+
+// R15.12 [C15]
+func ruleFirstRowIsLoopStart(c *eng.Ctx) {
+	const R = "R15.12-FIRST-ROW-IS-LOOP-START"
+	c.Rule(R, "where a Markdown writer emits the header delimiter row (\"---\") inside a row loop under a test 'row == k', the loop starts at that same k: a table whose content bounds begin further down (a blank first row, a table placed at B3) otherwise never reaches the test, gets no delimiter row and is not a table for a Markdown reader", 0, 1)
+	n := 0
+	for _, fn := range c.P.ModuleFuncs() {
+		if fn.Pkg == nil || fn.Blocks == nil {
+			continue
+		}
+		sp := eng.ShortPath(fn.Pkg.Pkg.Path())
+		switch sp {
+		case "xlsx", "docx", "odt", "pptx", "htmldoc", "model", "epubdoc", "rag", "tables":
+		default:
+			if !strings.Contains(sp, eng.PositivePkg) {
+				continue
+			}
+		}
+		eng.Instrs(fn, true, func(in ssa.Instruction) {
+			iff, ok := in.(*ssa.If)
+			if !ok {
+				return
+			}
+			b, ok := iff.Cond.(*ssa.BinOp)
+			if !ok || b.Op != token.EQL {
+				return
+			}
+			k, isC := eng.ConstInt(b.Y)
+			v := b.X
+			if !isC {
+				k, isC = eng.ConstInt(b.X)
+				v = b.Y
+			}
+			if !isC {
+				return
+			}
+			ph, isInd := eng.Induction(v)
+			if !isInd || v != ssa.Value(ph) {
+				return
+			}
+			// the region under the true edge writes a delimiter
+			tb := iff.Block().Succs[0]
+			writes := false
+			for _, blk := range in.Parent().Blocks {
+				if blk != tb && !tb.Dominates(blk) {
+					continue
+				}
+				for _, i2 := range blk.Instrs {
+					ci, ok := i2.(ssa.CallInstruction)
+					if !ok {
+						continue
+					}
+					for _, a := range ci.Common().Args {
+						if s, ok := eng.ConstString(a); ok && strings.Contains(s, "---") {
+							writes = true
+						}
+					}
+				}
+			}
+			if !writes {
+				return
+			}
+			n++
+			// where the loop starts
+			var starts []ssa.Value
+			for _, e := range ph.Edges {
+				if bb, ok := e.(*ssa.BinOp); ok && bb.X == ssa.Value(ph) {
+					continue
+				}
+				starts = append(starts, e)
+			}
+			okStart := len(starts) > 0
+			for _, s := range starts {
+				if sk, isK := eng.ConstInt(s); !isK || sk != k {
+					okStart = false
+				}
+			}
+			c.Check(okStart, R, fmt.Sprintf("%s#delimiter@%s", eng.FuncName(in.Parent()), c.P.Pos(b.Pos())), b.Pos(), "the tested row number is where the loop starts", fmt.Sprintf("the delimiter row is written when the row counter equals %d, but the loop does not start there (it starts at the first row of the content): a table that begins on a later row gets no delimiter row", k))
+		})
+	}
+	if n == 0 {
+		c.Ok(R, "module#delimiters", token.NoPos, "no delimiter row is written under a 'row == constant' test inside a loop")
+	}
+}
+
+// ---------------------------------------------------------------------------------------------------------------
+// R15.13 the body's automatic styles are registered last.
+
+// R15.13 [C15, C16]
+func ruleContentStylesWin(c *eng.Ctx) {
+	const R = "R15.13-CONTENT-STYLES-REGISTERED-LAST"
+	c.Rule(R, "odt.NewStyleResolver registers the automatic styles of content.xml after everything it takes from styles.xml: the maps are last-wins, automatic style names (L1, P1, T1 …) are generated independently in the two files, and the body is resolved against this table, so a styles.xml definition registered later replaces the body's own list and paragraph styles (a numbered list turns into bullets, a heading paragraph into body text)", 1, 0)
+	fn := c.P.Func("odt.NewStyleResolver")
+	if fn == nil {
+		c.Undec(R, "odt.NewStyleResolver", token.NoPos, "anchor not found")
+		return
+	}
+	var content, doc *ssa.Parameter
+	for _, p := range fn.Params {
+		tn := strings.ToLower(eng.TypeName(p.Type()))
+		if strings.Contains(tn, "content") {
+			content = p
+		} else if strings.Contains(tn, "styles") {
+			doc = p
+		}
+	}
+	if content == nil || doc == nil {
+		c.Ok(R, "odt.NewStyleResolver#order", fn.Pos(), "not evaluated: the two style sources are not two parameters of the constructor")
+		return
+	}
+	type event struct {
+		in  ssa.Instruction
+		src *ssa.Parameter
+	}
+	var evs []event
+	source := func(vals ...ssa.Value) *ssa.Parameter {
+		var got *ssa.Parameter
+		for _, v := range vals {
+			for w := range eng.Slice(v, func(*ssa.Call) bool { return true }) {
+				if w == ssa.Value(content) {
+					return content
+				}
+				if w == ssa.Value(doc) {
+					got = doc
+				}
+			}
+		}
+		return got
+	}
+	eff := eng.EffectsOf(c.P)
+	eng.Instrs(fn, false, func(in ssa.Instruction) {
+		switch x := in.(type) {
+		case *ssa.MapUpdate:
+			if s := source(x.Value, x.Key); s != nil {
+				evs = append(evs, event{in, s})
+			}
+		case *ssa.Call:
+			cal := eng.StaticCallee(x)
+			if cal == nil || !eng.InModule(cal) || len(eff.WritesParam[cal]) == 0 {
+				return
+			}
+			if s := source(eng.ArgsWithRecv(x)...); s != nil {
+				evs = append(evs, event{in, s})
+			}
+		}
+	})
+	nc, nd := 0, 0
+	for _, e := range evs {
+		if e.src == content {
+			nc++
+		} else {
+			nd++
+		}
+	}
+	if nc == 0 || nd == 0 {
+		c.Ok(R, "odt.NewStyleResolver#order", fn.Pos(), "not evaluated: registrations from both sources are not visible in the constructor")
+		return
+	}
+	after := func(a, b ssa.Instruction) bool { // can b run after a
+		if a.Block() == b.Block() {
+			for _, in := range a.Block().Instrs {
+				if in == a {
+					return true
+				}
+				if in == b {
+					break
+				}
+			}
+		}
+		r := eng.ReachableBlocks(a.Block().Succs, nil)
+		return r[b.Block()]
+	}
+	var bad []string
+	for _, ec := range evs {
+		if ec.src != content {
+			continue
+		}
+		for _, ed := range evs {
+			if ed.src == doc && after(ec.in, ed.in) {
+				bad = append(bad, "styles.xml definitions registered at "+c.P.Pos(ed.in.Pos())+" after content.xml's at "+c.P.Pos(ec.in.Pos()))
+			}
+		}
+	}
+	sort.Strings(bad)
+	if len(bad) > 3 {
+		bad = bad[:3]
+	}
+	c.Check(len(bad) == 0, R, "odt.NewStyleResolver#order", fn.Pos(), fmt.Sprintf("%d registrations from styles.xml all precede the %d from content.xml", nd, nc), "definitions from styles.xml can overwrite the body's automatic styles ("+strings.Join(bad, "; ")+")")
+}
+
+// ---------------------------------------------------------------------------------------------------------------
+// R17.13 the grid is sized from every addressed cell.
+
+// R17.13 [C17]
+func ruleGridSizedFromEveryCell(c *eng.Ctx) {
+	const R = "R17.13-GRID-SIZED-FROM-EVERY-CELL"
+	c.Rule(R, "where parseWorksheet (or a helper) raises the sheet's width or height from a parsed cell reference, nothing about the cell's content (value, formula, type, style, inline string) decides whether the cell is counted, only whether the reference parses: the second pass places every addressed cell, and one that was not counted lies outside the allocated grid and is dropped (an inline string has no <v>)", 1, 0)
+	fn := c.P.Func("xlsx.(*Reader).parseWorksheet")
+	if fn == nil {
+		c.Undec(R, "xlsx.(*Reader).parseWorksheet", token.NoPos, "anchor not found")
+		return
+	}
+	n := 0
+	for _, h := range eng.Cluster(fn, 2) {
+		if h.Pkg != fn.Pkg {
+			continue
+		}
+		eng.Instrs(h, false, func(in ssa.Instruction) {
+			b, ok := in.(*ssa.BinOp)
+			if !ok || (b.Op != token.GTR && b.Op != token.LSS && b.Op != token.GEQ && b.Op != token.LEQ) {
+				return
+			}
+			// one side is a column/row from ParseCellRef, the other a running maximum (phi)
+			fromRef := func(v ssa.Value) bool {
+				for w := range eng.Slice(v, nil) {
+					if ex, ok := w.(*ssa.Extract); ok {
+						if call, ok := ex.Tuple.(*ssa.Call); ok && strings.HasSuffix(eng.CalleeName(call), "ParseCellRef") {
+							return true
+						}
+					}
+				}
+				return false
+			}
+			var other ssa.Value
+			if fromRef(b.X) {
+				other = b.Y
+			} else if fromRef(b.Y) {
+				other = b.X
+			} else {
+				return
+			}
+			if _, isPhi := other.(*ssa.Phi); !isPhi {
+				return
+			}
+			n++
+			var bad []string
+			for d := b.Block().Idom(); d != nil; d = d.Idom() {
+				iff, ok := d.Instrs[len(d.Instrs)-1].(*ssa.If)
+				if !ok {
+					continue
+				}
+				for w := range eng.Slice(iff.Cond, func(*ssa.Call) bool { return true }) {
+					var st *types.Struct
+					fi := -1
+					var nm string
+					switch x := w.(type) {
+					case *ssa.FieldAddr:
+						if pt, ok := x.X.Type().Underlying().(*types.Pointer); ok {
+							st, _ = pt.Elem().Underlying().(*types.Struct)
+							nm = eng.TypeName(pt.Elem())
+							fi = x.Field
+						}
+					case *ssa.Field:
+						st, _ = x.X.Type().Underlying().(*types.Struct)
+						nm = eng.TypeName(x.X.Type())
+						fi = x.Field
+					}
+					if st == nil || !strings.HasSuffix(nm, "cellXML") {
+						continue
+					}
+					if f := st.Field(fi).Name(); f != "R" {
+						bad = append(bad, "cell."+f+" tested at "+c.P.Pos(iff.Cond.Pos()))
+					}
+				}
+			}
+			sort.Strings(bad)
+			c.Check(len(bad) == 0, R, fmt.Sprintf("%s#dimension@%s", eng.FuncName(in.Parent()), c.P.Pos(b.Pos())), b.Pos(), "every cell with a valid reference is counted", "whether a cell counts for the grid size depends on its content ("+strings.Join(bad, "; ")+"): a cell that is not counted but has text (an inline string, a cached error) falls outside the grid and is dropped")
+		})
+	}
+	if n == 0 {
+		c.Ok(R, "xlsx.(*Reader).parseWorksheet#dimension", fn.Pos(), "not evaluated: no running maximum of parsed cell references found")
+	}
+}
